@@ -17,6 +17,8 @@ import common
 
 import jinja2
 
+import pubscan
+
 from vinegar.data_source import DataSource
 from vinegar.http.server import HttpRequestHandler, HttpRequestInfo
 from vinegar.request_handler import file as F
@@ -49,6 +51,23 @@ def set_log_level(name):
 set_log_level("DEBUG")
 
 DUMP_TEMPLATE = "{{ dump() }}"
+
+
+def dump_file(path):
+    """content of a served file of the C06 runs: the context dump plus (as a template comment) the file's own path, so
+    that WHICH file was served is visible in the reply with and without a template engine"""
+    return DUMP_TEMPLATE + "{#FILE:" + path + "#}"
+
+
+def served_from_raw(body):
+    """the path marker of a file served without template engine"""
+    try:
+        t = body.decode("utf-8")
+        i = t.index("{#FILE:")
+        return t[i + 7:t.index("#}", i)]
+    except Exception:
+        return None
+
 PH_DEFAULT = "..."
 
 _BASE = None
@@ -142,6 +161,7 @@ def _dump(ctx):
             out["data"] = allv["data"].get("tag", None)
         except Exception as ex:      # not the SmartLookupDict the documentation promises
             out["data"] = "?" + type(ex).__name__
+    out["name"] = ctx.name            # the template that is being rendered = the file that is served
     ri = allv.get("request_info")
     try:
         out["uri"] = ri["uri"]
@@ -343,7 +363,7 @@ def _http_server():
         srv = HttpServer([front, _HttpFallback()], "::1", 0)
         srv.start()
         atexit.register(srv.stop)
-        _servers["http"] = (srv, front, srv._server.socket.getsockname()[1])
+        _servers["http"] = (srv, front, pubscan.base_server(srv).socket.getsockname()[1])
     return _servers["http"]
 
 
@@ -354,7 +374,7 @@ def _tftp_server():
         srv = TftpServer([front, _TftpFallback()], "::1", common.free_udp_port(), default_timeout=2.0, max_retries=1)
         srv.start()
         atexit.register(srv.stop)
-        _servers["tftp"] = (srv, front, srv._socket.getsockname()[1])
+        _servers["tftp"] = (srv, front, pubscan.udp_socket(srv).getsockname()[1])
     return _servers["tftp"]
 
 
@@ -439,16 +459,11 @@ def via_server(h, tftp, uri):
     return seen[0], seen[1], bool(seen[2]), cls, body
 
 
-def canon_ctx(ctx):
-    """(matches, raw value, extra path); the other fields only mean something on a match"""
-    try:
-        m = bool(ctx["matches"])
-    except Exception:
-        return [False, [], []]
-    if not m:
-        return [False, [], []]
-    rv, ep = ctx.get("lookup_raw_value"), ctx.get("extra_path")
-    return [True, [] if rv is None else [rv], [] if ep is None else [ep]]
+def decision(can):
+    """the context object returned by prepare_context is opaque in the public API: the observation of the matching is
+    the boolean of can_handle (the extracted lookup value shows in the data-source calls, the extra path in the file
+    that is served)"""
+    return [bool(can), [], []]
 
 
 # ----------------------------------------------------------------------------- strings <-> sx
